@@ -180,6 +180,10 @@ func (d *Dataset) VerifLoadRaft(i int, nodeIds []uint64) error {
 }
 func (d *Dataset) VerifClose() { d.close() }
 
+// VerifUnloadRaft stops and forgets partition i's raft group, as the allocator does when the
+// dataset is deleted or the replica moves away.
+func (d *Dataset) VerifUnloadRaft(i int) error { return d.partitions[i].unloadRaft() }
+
 // VerifRaft returns partition i's raft group (nil while raft is not loaded).
 func (d *Dataset) VerifRaft(i int) *raft.RaftGroup {
 	d.partitions[i].raftMu.RLock()
